@@ -465,6 +465,8 @@ pub struct BatchOut {
     pub hang: Option<(u64, ExecCfg, Vec<Op>)>,
     pub obs_panics: u64,
     pub obs_panic_msg: String,
+    /// workers lost in a call that did not return (bounded liveness watchdog)
+    pub hangs: u64,
 }
 
 pub fn run_batch(o: &BatchOpts, want_digests: bool) -> BatchOut {
@@ -474,7 +476,8 @@ pub fn run_batch(o: &BatchOpts, want_digests: bool) -> BatchOut {
     let first_bad = Arc::new(AtomicU64::new(u64::MAX));
     let end = o.start + o.runs;
     let base_start = o.start;
-    let results: Arc<Mutex<Vec<WorkerOut>>> = Arc::new(Mutex::new(Vec::new()));
+    let lost: Arc<Mutex<Vec<bool>>> = Arc::new(Mutex::new(vec![false; o.threads]));
+    let hangs = Arc::new(AtomicU64::new(0));
     let progresses: Vec<Arc<Progress>> = (0..o.threads).map(|_| Arc::new(Progress::new())).collect();
     let hang: Arc<Mutex<Option<(u64, ExecCfg, Vec<Op>)>>> = Arc::new(Mutex::new(None));
     struct WorkerOut {
@@ -488,12 +491,27 @@ pub fn run_batch(o: &BatchOpts, want_digests: bool) -> BatchOut {
         obs_panics: u64,
         obs_panic_msg: String,
     }
+    let outs: Vec<Arc<Mutex<WorkerOut>>> = (0..o.threads)
+        .map(|_| {
+            Arc::new(Mutex::new(WorkerOut {
+                stats: Stats::default(),
+                runs: 0,
+                truncated: 0,
+                viols: Vec::new(),
+                known: BTreeMap::new(),
+                samples: Vec::new(),
+                digests: Vec::new(),
+                obs_panics: 0,
+                obs_panic_msg: String::new(),
+            }))
+        })
+        .collect();
     let mut handles = Vec::new();
     for w in 0..o.threads {
         let next = next.clone();
         let stop = stop.clone();
         let first_bad = first_bad.clone();
-        let results = results.clone();
+        let my_out = outs[w].clone();
         let prop = o.prop.clone();
         let batch = o.batch_seed;
         let known = o.known.clone();
@@ -502,17 +520,6 @@ pub fn run_batch(o: &BatchOpts, want_digests: bool) -> BatchOut {
         let h = std::thread::Builder::new()
             .stack_size(64 << 20)
             .spawn(move || {
-                let mut wo = WorkerOut {
-                    stats: Stats::default(),
-                    runs: 0,
-                    truncated: 0,
-                    viols: Vec::new(),
-                    known: BTreeMap::new(),
-                    samples: Vec::new(),
-                    digests: Vec::new(),
-                    obs_panics: 0,
-                    obs_panic_msg: String::new(),
-                };
                 loop {
                     if stop.load(Ordering::Relaxed) {
                         break;
@@ -530,7 +537,11 @@ pub fn run_batch(o: &BatchOpts, want_digests: bool) -> BatchOut {
                             stop.store(true, Ordering::Relaxed);
                             break;
                         }
-                        let (seed, gcfg, out) = match crate::util::catch(|| run_generated(&prop, batch, idx, Some(&progress))) {
+                        let res = crate::util::catch(|| run_generated(&prop, batch, idx, Some(&progress)));
+                        // results are merged into the shared slot after every run, so that a worker
+                        // that is later lost in a call that does not return keeps what it found
+                        let mut wo = my_out.lock().unwrap();
+                        let (seed, gcfg, out) = match res {
                             Ok(x) => x,
                             Err(p) => {
                                 wo.runs += 1;
@@ -576,7 +587,6 @@ pub fn run_batch(o: &BatchOpts, want_digests: bool) -> BatchOut {
                         }
                     }
                 }
-                results.lock().unwrap().push(wo);
             })
             .unwrap();
         handles.push(h);
@@ -587,15 +597,22 @@ pub fn run_batch(o: &BatchOpts, want_digests: bool) -> BatchOut {
         let wd_stop = wd_stop.clone();
         let progresses = progresses.clone();
         let hang = hang.clone();
+        let lost = lost.clone();
+        let hangs = hangs.clone();
         std::thread::spawn(move || {
             while !wd_stop.load(Ordering::Relaxed) {
                 std::thread::sleep(Duration::from_millis(200));
-                for p in &progresses {
+                for (w, p) in progresses.iter().enumerate() {
                     let s = p.slot.lock().unwrap();
                     if let Some(t) = s.1 {
-                        if t.elapsed() > Duration::from_secs(60) {
-                            *hang.lock().unwrap() = Some((s.2, s.3.clone(), s.0.clone()));
-                            return;
+                        if t.elapsed() > Duration::from_secs(60) && !lost.lock().unwrap()[w] {
+                            // this worker is lost in a call that does not return; the others go on
+                            lost.lock().unwrap()[w] = true;
+                            hangs.fetch_add(1, Ordering::Relaxed);
+                            let mut h = hang.lock().unwrap();
+                            if h.is_none() {
+                                *h = Some((s.2, s.3.clone(), s.0.clone()));
+                            }
                         }
                     }
                 }
@@ -603,22 +620,33 @@ pub fn run_batch(o: &BatchOpts, want_digests: bool) -> BatchOut {
         })
     };
     loop {
-        if handles.iter().all(|h| h.is_finished()) {
+        let l = lost.lock().unwrap().clone();
+        if handles.iter().enumerate().all(|(i, h)| h.is_finished() || l[i]) {
             break;
         }
-        if hang.lock().unwrap().is_some() {
+        let n_lost = l.iter().filter(|x| **x).count();
+        if (o.prop == "C02" && n_lost > 0) || n_lost * 2 >= o.threads.max(2) {
+            // C02 reports the first hang at once; any check gives up when half its workers are lost
             break;
         }
         std::thread::sleep(Duration::from_millis(20));
     }
+    stop.store(true, Ordering::Relaxed);
     wd_stop.store(true, Ordering::Relaxed);
     let hang_v = hang.lock().unwrap().clone();
-    if hang_v.is_none() {
-        for h in handles {
+    let l = lost.lock().unwrap().clone();
+    for (i, h) in handles.into_iter().enumerate() {
+        if !l[i] && hang_v.is_none() {
             let _ = h.join();
+        } else if !l[i] {
+            // give the live workers a moment to finish their current run
+            let t = Instant::now();
+            while !h.is_finished() && t.elapsed() < Duration::from_secs(5) {
+                std::thread::sleep(Duration::from_millis(10));
+            }
         }
-        let _ = wd.join();
     }
+    let _ = wd.join();
     let mut out = BatchOut {
         runs_done: 0,
         stats: Stats::default(),
@@ -631,10 +659,27 @@ pub fn run_batch(o: &BatchOpts, want_digests: bool) -> BatchOut {
         hang: hang_v,
         obs_panics: 0,
         obs_panic_msg: String::new(),
+        hangs: 0,
     };
-    let mut rs = results.lock().unwrap();
     let mut samples: Vec<(u64, usize, bool, Vec<Op>, String)> = Vec::new();
-    for wo in rs.drain(..) {
+    out.hangs = hangs.load(Ordering::Relaxed);
+    for slot in &outs {
+        let Ok(mut guard) = slot.try_lock() else { continue };
+        let wo = std::mem::replace(
+            &mut *guard,
+            WorkerOut {
+                stats: Stats::default(),
+                runs: 0,
+                truncated: 0,
+                viols: Vec::new(),
+                known: BTreeMap::new(),
+                samples: Vec::new(),
+                digests: Vec::new(),
+                obs_panics: 0,
+                obs_panic_msg: String::new(),
+            },
+        );
+        drop(guard);
         out.runs_done += wo.runs;
         out.truncated_foreign += wo.truncated;
         out.obs_panics += wo.obs_panics;
